@@ -134,12 +134,22 @@ type (
 		creq    *clientReq
 		session *shareSession // session at registration time; stale if overwritten
 		in      []*partData
-		ackTs   []ackTopic // piggybacked ack topics from the initial request
+		ackTs   []ackTopic    // piggybacked ack topics from the initial request
+		ackErrs []shareAckErr // per-partition errors of those acks, re-applied when the fetch is re-run
 		cb      func()
 		t       *time.Timer
 
 		once    sync.Once
 		cleaned bool
+	}
+
+	// shareAckErr is the acknowledge error of one partition of a parked
+	// ShareFetch: the piggybacked acks are processed once, on the initial
+	// invocation, and their result must survive until the response is built.
+	shareAckErr struct {
+		tid uuid
+		p   int32
+		ec  int16
 	}
 
 	// tpKey identifies a (topicID, partition) pair for response dedup.
